@@ -4,6 +4,7 @@ from pyvc import api
 from pyvc.api import contract, Int, Bool, Str, OptT, ObjT, TupT, SeqT
 from pyvc.values import *  # noqa
 from .common import Record
+from .c09 import mt_spec
 from .shapes import MatchT, InfoT, match_spec2, record_spec
 from .c03 import CutterT, MatchesT, upper_rec, ACTION_OK, IS as _IS
 
@@ -13,7 +14,7 @@ CUT_PRE = dict(
     action_ok=ACTION_OK.replace("self.action", "self.adapter_cutter.action"),
     single_round="implies(%s or %s, self.adapter_cutter.times == 1)" % (
         _IS("retain").replace("self.action", "self.adapter_cutter.action"), _IS("crop").replace("self.action", "self.adapter_cutter.action")),
-    crop_not_with_linked="implies(%s, not self.adapter_cutter.adapters.has_linked)" % _IS("crop").replace("self.action", "self.adapter_cutter.action"),
+    crop_not_with_linked="implies(%s, no_linked(self.adapter_cutter.adapters))" % _IS("crop").replace("self.action", "self.adapter_cutter.action"),
 )
 
 
@@ -22,7 +23,7 @@ def reverse_complementer_call(c):
     c.types(self=RCT, read=Record, info=InfoT)
     c.returns(Record)
     c.modifies = ["self", "info", "read"]
-    c.spec(match_spec2)
+    c.spec(mt_spec)
     c.spec(record_spec)
     c.spec(upper_rec)
     c.requires(**CUT_PRE)
@@ -63,7 +64,7 @@ def _cut_pre(which, r):
     return {
         f"action_ok{which}": f"implies(not is_none(self.adapter_cutter{which}), {rep(ACTION_OK)})",
         f"single_round{which}": f"implies(not is_none(self.adapter_cutter{which}) and ({rep(_IS('retain'))} or {rep(_IS('crop'))}), {cut}.times == 1)",
-        f"crop_not_with_linked{which}": f"implies(not is_none(self.adapter_cutter{which}) and {rep(_IS('crop'))}, not {cut}.adapters.has_linked)",
+        f"crop_not_with_linked{which}": f"implies(not is_none(self.adapter_cutter{which}) and {rep(_IS('crop'))}, no_linked({cut}.adapters))",
     }
 
 
@@ -74,7 +75,7 @@ def paired_reverse_complementer_call(c):
     c.modifies = ["self", "info1", "info2", "r1", "r2"]
     for nme in ("r1_matches", "r2_matches", "r1_matches_swapped", "r2_matches_swapped"):
         c.local_types[nme] = MatchesT
-    c.spec(match_spec2)
+    c.spec(mt_spec)
     c.spec(record_spec)
     c.spec(upper_rec)
     c.requires(rec1="is_none(r1.qualities) or len(val(r1.qualities)) == len(r1.sequence)",
